@@ -395,11 +395,55 @@ func exitGuardText(g guard) string {
 			return "found " + short(e)
 		}
 	}
-	k := normGuard(core.Key(v))
+	if bo, ok := v.(*ssa.BinOp); ok {
+		op := bo.Op.String()
+		if neg {
+			op = map[string]string{"==": "!=", "!=": "==", "<": ">=", ">=": "<", ">": "<=", "<=": ">"}[op]
+		}
+		return shortVal(bo.X) + " " + op + " " + shortVal(bo.Y)
+	}
+	k := shortVal(v)
 	if neg {
 		return "!" + k
 	}
 	return k
+}
+
+// shortVal renders a value compactly and stably: calls by their short callee name.
+func shortVal(v ssa.Value) string {
+	switch x := v.(type) {
+	case *ssa.Const:
+		return core.Key(x)
+	case *ssa.Extract:
+		return shortVal(x.Tuple) + fmt.Sprintf("#%d", x.Index)
+	case *ssa.Call:
+		if x.Call.IsInvoke() {
+			return x.Call.Method.Name()
+		}
+		n := core.CalleeName(&x.Call)
+		if n == "builtin:len" {
+			return "len(" + shortVal(x.Call.Args[0]) + ")"
+		}
+		if i := strings.LastIndex(n, "."); i >= 0 {
+			n = n[i+1:]
+		}
+		return n
+	case *ssa.UnOp:
+		if x.Op.String() == "*" {
+			return shortVal(x.X)
+		}
+		return x.Op.String() + shortVal(x.X)
+	case *ssa.FieldAddr:
+		_, f := core.FieldOf(x)
+		return shortVal(x.X) + "." + f
+	case *ssa.Field:
+		return shortVal(x.X) + ".field"
+	case *ssa.Parameter:
+		return x.Name()
+	case *ssa.Lookup:
+		return "lookup " + core.Key(x.Index)
+	}
+	return normGuard(core.Key(v))
 }
 
 // errorExits lists, for every return of a non-nil error, the innermost guard.
@@ -428,10 +472,24 @@ var errorExitTable = []struct {
 	why           string
 }{
 	{"C17", "controller/services", "c.GetTLSSecretContent", 1, []string{`checkValidCertPEM != nil`, `get != nil`, `missing lookup "tls.crt"`}, "any other error makes the signer take a valid certificate as missing and request it again on every check"},
+	{"C15", "controller/services", "c.GetTLSSecretPath", 1, []string{`Stat != nil`, `buildResourceName != nil`, `getCertificate != nil`, `getCertificate == nil`, `getContentProtocol#0 != "secret"`}, "a dropped or inverted test lets a missing, foreign or malformed object through (or rejects a good one, which falls back to the default certificate / drops the declaration)"},
+	{"C15", "controller/legacy", "k8scache.GetTLSSecretPath", 1, []string{`GetCertificate != nil`, `GetCertificate == nil`, `Stat != nil`, `buildResourceName != nil`, `getContentProtocol#0 != "secret"`}, "a dropped or inverted test lets a missing, foreign or malformed object through (or rejects a good one, which falls back to the default certificate / drops the declaration)"},
+	{"C15", "controller/services", "c.GetCASecretPath", 2, []string{`Stat != nil`, `Stat != nil`, `buildResourceName != nil`, `getCertificate != nil`, `getCertificate#0.CAFileName == ""`, `getContentProtocol#0 != "secret"`, `getContentProtocol#1 == ""`, `len(Split) > 2`}, "a dropped or inverted test lets a missing, foreign or malformed object through (or rejects a good one, which falls back to the default certificate / drops the declaration)"},
+	{"C15", "controller/legacy", "k8scache.GetCASecretPath", 2, []string{`GetCertificate != nil`, `GetCertificate#0.CAFileName == ""`, `Stat != nil`, `Stat != nil`, `buildResourceName != nil`, `getContentProtocol#0 != "secret"`, `getContentProtocol#1 == ""`, `len(Split) > 2`}, "a dropped or inverted test lets a missing, foreign or malformed object through (or rejects a good one, which falls back to the default certificate / drops the declaration)"},
+	{"C15", "controller/services", "c.GetPasswdSecretContent", 1, []string{`Get != nil`, `buildResourceName != nil`, `getContentProtocol#0 != "secret"`, `getContentProtocol#0 == "file"`, `missing lookup "auth"`}, "a dropped or inverted test lets a missing, foreign or malformed object through (or rejects a good one, which falls back to the default certificate / drops the declaration)"},
+	{"C15", "controller/legacy", "k8scache.GetPasswdSecretContent", 1, []string{`Get != nil`, `buildResourceName != nil`, `getContentProtocol#0 != "secret"`, `getContentProtocol#0 == "file"`, `missing lookup "auth"`}, "a dropped or inverted test lets a missing, foreign or malformed object through (or rejects a good one, which falls back to the default certificate / drops the declaration)"},
+	{"C15", "controller/services", "c.GetDHSecretPath", 1, []string{`Get != nil`, `Stat != nil`, `buildResourceName != nil`, `getContentProtocol#0 != "secret"`, `getDHParam != nil`}, "a dropped or inverted test lets a missing, foreign or malformed object through (or rejects a good one, which falls back to the default certificate / drops the declaration)"},
+	{"C15", "controller/legacy", "k8scache.GetDHSecretPath", 1, []string{`AddOrUpdateDHParam != nil`, `Get != nil`, `Stat != nil`, `buildResourceName != nil`, `getContentProtocol#0 != "secret"`, `missing lookup "dhparam.pem"`}, "a dropped or inverted test lets a missing, foreign or malformed object through (or rejects a good one, which falls back to the default certificate / drops the declaration)"},
+	{"C15", "controller/services", "c.GetService", 1, []string{`buildResourceName != nil`, `buildResourceName == nil`}, "a dropped or inverted test lets a missing, foreign or malformed object through (or rejects a good one, which falls back to the default certificate / drops the declaration)"},
+	{"C15", "controller/legacy", "k8scache.GetService", 1, []string{`buildResourceName != nil`, `buildResourceName == nil`}, "a dropped or inverted test lets a missing, foreign or malformed object through (or rejects a good one, which falls back to the default certificate / drops the declaration)"},
+	{"C15", "controller/services", "c.GetTerminatingPods", 1, []string{`List != nil`, `buildLabelSelector != nil`}, "a dropped or inverted test lets a missing, foreign or malformed object through (or rejects a good one, which falls back to the default certificate / drops the declaration)"},
+	{"C15", "controller/legacy", "k8scache.GetTerminatingPods", 1, []string{`!c.listers.hasPodLister`, `List != nil`, `buildLabelSelector != nil`}, "a dropped or inverted test lets a missing, foreign or malformed object through (or rejects a good one, which falls back to the default certificate / drops the declaration)"},
 	{"C17", "controller/legacy", "k8scache.GetTLSSecretContent", 1, []string{`Decode == nil`, `GetSecret != nil`, `ParseCertificate != nil`, `missing lookup "tls.crt"`}, "any other error makes the signer take a valid certificate as missing and request it again on every check"},
 }
 
 func init() {
+	addRule("C15", &core.Rule{ID: "C15.reader-exits", Floor: 12, Run: func(c *core.Ctx) { errorExitRule(c, "C15") },
+		Doc: "The readers of the cache facades (both runtimes) fail exactly for the reviewed reasons: unsupported protocol, file missing, name not resolvable / not permitted, object not found, key missing, content not parseable. A test that is dropped or inverted changes the list."})
 	addRule("C17", &core.Rule{ID: "C17.reader-exits", Floor: 2, Run: func(c *core.Ctx) { errorExitRule(c, "C17") },
 		Doc: "The certificate reader used by the signer reports `unreadable` only for the reviewed reasons (secret not found, crt key missing, PEM/x509 not parseable): a new rejection makes verify() re-request valid certificates."})
 }
@@ -444,6 +502,24 @@ func errorExitRule(c *core.Ctx, prop string) {
 		fn := c.Fn(e.pkg, e.fn)
 		if fn == nil {
 			continue
+		}
+		// every success return carries a value that was read (not the untouched zero value)
+		for _, r := range core.Returns(fn) {
+			res := core.Results(r)
+			if e.idx >= len(res) || !core.IsNilConst(res[e.idx]) || e.idx == 0 {
+				continue
+			}
+			if strings.HasPrefix(res[0].Type().String(), "[]*") {
+				continue // filtered lists are checked by their own rules
+			}
+			l := sliceLeaves(c.Env, res[0], 0)
+			real := false
+			for k := range l {
+				if strings.HasPrefix(k, "field:") || strings.HasPrefix(k, "call:") || strings.HasPrefix(k, "extract:") || strings.HasPrefix(k, "param:") || strings.HasPrefix(k, "load:") {
+					real = true
+				}
+			}
+			c.Check(real, e.pkg+"."+e.fn+" success returns what it read: "+exitGuardsText(r), at(c, r), "", "a nil error is returned together with a value that derives from nothing ("+leavesList(l)+"): the caller takes an empty result for a successful read")
 		}
 		got := errorExits(fn, e.idx)
 		c.Check(strings.Join(got, " | ") == strings.Join(e.want, " | "), e.pkg+"."+e.fn+" fails only for the reviewed reasons", c.Pos(fn.Pos()),
@@ -777,4 +853,16 @@ func c06SharedAcquire(c *core.Ctx) {
 		}
 		c.Check(n >= 2, "setAuthExternal configures the acquired auth backend", at(c, s.Instr), "", fmt.Sprintf("%d stores into the acquired object", n))
 	}
+}
+
+func exitGuardsText(r *ssa.Return) string {
+	gs := guardsOf(r)
+	if len(gs) == 0 {
+		return "always"
+	}
+	t := exitGuardText(gs[0])
+	if len(t) > 90 {
+		t = "after the last test"
+	}
+	return t
 }
